@@ -639,6 +639,32 @@ def gen_nested(rng):
     return case
 
 
+def gen_nested_panic(rng):
+    """C11 family: a handler builds, runs and drops a nested simulation (whose model may itself panic, the
+    error being handled) and THEN panics: the panic must be reported as Panic of the enclosing model, the
+    enclosing simulation terminated; further calls return Terminated."""
+    n = rng.randint(1, 3)
+    models = []
+    bad = rng.randrange(n)
+    for i in range(n):
+        ops = [("snd", 0, "in")]
+        if i == bad:
+            ops = [(rng.choice(["nst", "nsp"]), rng.choice([1, 1, 2]), rng.randint(1, 3))] + ([("snd", 0, "in")] if rng.random() < 0.5 else []) + [("pan", rng.randint(1, 9))]
+        models.append({"cap": 4, "handlers": [ops, [("snd", 0, "in")], []], "repliers": [], "outs": [[("all", 0, ("s", 0))]],
+                       "reqs": [], "init": []})
+    case = {"models": models, "sinks": [("buf", 64)], "mode": "multiset", "tags": {"nested", "panic"}, "threads": 1, "t0": 0,
+            "clock": [], "sources": []}
+    cmds, val = [], 0
+    for m in range(n):
+        if m != bad and rng.random() < 0.5:
+            val += 1; cmds.append(("pe", m, 0, val))
+    val += 1; cmds.append(("pe", bad, 0, val))
+    for _ in range(rng.randint(1, 2)):
+        val += 1; cmds.append(rng.choice([("pe", rng.randrange(n), 1, val), ("st",)]))
+    case["cmds"] = cmds
+    return case
+
+
 def gen_deadlock(rng):
     """C06 family: query loop-backs (direct, transitive, in sub-models), saturating event loops that
     deadlock deterministically (a model that sends itself capacity+1 events from one handler), orphan
